@@ -1401,29 +1401,31 @@ func ruleCountLoop(c *Ctx) {
 					return false
 				}
 				// a down-counting loop: the header φ starts at the count and is compared with zero
-				downFrom := func(ind, bound ssa.Value) (ssa.Value, bool) {
+				// (every value it can start from: a count clamped on one path into the loop is not the count)
+				downFrom := func(ind, bound ssa.Value) ([]ssa.Value, bool) {
 					phi, ok := ind.(*ssa.Phi)
 					if !ok || phi.Block() != h || !isZeroSSA(bound) {
 						return nil, false
 					}
+					var inits []ssa.Value
 					for i, pr := range h.Preds {
 						if !body[pr] {
-							return phi.Edges[i], true
+							inits = append(inits, phi.Edges[i])
 						}
 					}
-					return nil, false
+					return inits, len(inits) > 0
 				}
 				switch {
 				case isInd(bo.X) && !isInd(bo.Y):
-					if init, ok := downFrom(bo.X, bo.Y); ok {
-						bounds = append(bounds, init)
+					if inits, ok := downFrom(bo.X, bo.Y); ok {
+						bounds = append(bounds, inits...)
 					} else {
 						bounds = append(bounds, bo.Y)
 					}
 					at = bo.Pos()
 				case isInd(bo.Y) && !isInd(bo.X):
-					if init, ok := downFrom(bo.Y, bo.X); ok {
-						bounds = append(bounds, init)
+					if inits, ok := downFrom(bo.Y, bo.X); ok {
+						bounds = append(bounds, inits...)
 					} else {
 						bounds = append(bounds, bo.X)
 					}
